@@ -901,6 +901,22 @@ func absDiff(c *an.Ctx, d ssa.Value, ret *ssa.Return, px, py *ssa.Parameter) str
 		return nil, nil, false
 	}
 	vals := an.ValuesAt(d)
+	// (v) max(a, b) - min(a, b) over the same two quantities (builtins or math.Max/math.Min)
+	if len(vals) == 1 {
+		if bo, ok := vals[0].(*ssa.BinOp); ok && bo.Op == token.SUB {
+			hi, okH := bo.X.(*ssa.Call)
+			lo, okL := bo.Y.(*ssa.Call)
+			if okH && okL && len(hi.Call.Args) == 2 && len(lo.Call.Args) == 2 {
+				hn, ln := an.CalleeName(hi), an.CalleeName(lo)
+				isMax := hn == "builtin max" || hn == "math.Max"
+				isMin := ln == "builtin min" || ln == "math.Min"
+				same := (hi.Call.Args[0] == lo.Call.Args[0] && hi.Call.Args[1] == lo.Call.Args[1]) || (hi.Call.Args[0] == lo.Call.Args[1] && hi.Call.Args[1] == lo.Call.Args[0])
+				if isMax && isMin && same && oneEach(hi.Call.Args[0], hi.Call.Args[1]) {
+					return ""
+				}
+			}
+		}
+	}
 	// (i) math.Abs(a-b)
 	if len(vals) == 1 {
 		if call, ok := vals[0].(*ssa.Call); ok && an.CalleeName(call) == "math.Abs" {
@@ -1040,7 +1056,7 @@ func symmetricBound(c *an.Ctx, t ssa.Value, px, py *ssa.Parameter) string {
 		seen[v] = true
 		if call, ok := v.(*ssa.Call); ok {
 			n := an.CalleeName(call)
-			if (n == "math.Min" || n == "math.Max") && len(call.Call.Args) == 2 {
+			if (n == "math.Min" || n == "math.Max" || n == "builtin min" || n == "builtin max") && len(call.Call.Args) == 2 {
 				ax, ay := depsOn(call.Call.Args[0], px, py, c, 2)
 				bx, by := depsOn(call.Call.Args[1], px, py, c, 2)
 				if (ax && !ay && by && !bx) || (ay && !ax && bx && !by) {
@@ -1206,8 +1222,24 @@ func containsFuncCombiner(a *ssa.Function, stopOn bool) (ok bool, argsOK bool) {
 		return v, false
 	}
 	v, neg1 := strip(rets[0].Results[0])
+	// slices.IndexFunc(…) >= 0 is ContainsFunc, … < 0 its negation
+	if bo, isBo := v.(*ssa.BinOp); isBo {
+		if k, isC := an.ConstInt(bo.Y); isC {
+			if ic, isIC := bo.X.(*ssa.Call); isIC && strings.HasPrefix(an.CalleeName(ic), "slices.IndexFunc") {
+				switch {
+				case bo.Op == token.GEQ && k == 0, bo.Op == token.GTR && k == -1, bo.Op == token.NEQ && k == -1:
+					v = ic
+				case bo.Op == token.LSS && k == 0, bo.Op == token.EQL && k == -1, bo.Op == token.LEQ && k == -1:
+					v, neg1 = ic, !neg1
+				}
+			}
+		}
+	}
 	call, isCall := v.(*ssa.Call)
-	if !isCall || !strings.HasPrefix(an.CalleeName(call), "slices.ContainsFunc") || len(call.Call.Args) != 2 {
+	if !isCall || !(strings.HasPrefix(an.CalleeName(call), "slices.ContainsFunc") || strings.HasPrefix(an.CalleeName(call), "slices.IndexFunc")) || len(call.Call.Args) != 2 {
+		return false, false
+	}
+	if strings.HasPrefix(an.CalleeName(call), "slices.IndexFunc") && v != ssa.Value(call) {
 		return false, false
 	}
 	mc, isMC := call.Call.Args[1].(*ssa.MakeClosure)
